@@ -26,7 +26,7 @@ PROPS["C01"] = dict(
     quick=dict(shards=8, timeout=600), thorough=dict(shards=16, timeout=3000),
     claim="differential testing of servers generated at check time from /repo's templates (several option vectors linked into one "
           "binary) against an independent reference GraphQL executor, over rapid-generated operations (fragments, aliases, "
-          "@skip/@include, variables) and outcome plans (value/null/error per resolver and directive invocation)."
+          "@skip/@include, variables) and outcome plans (value/null/error per resolver and directive invocation). "
           "Plans may also make any value read from a parent object and any list element absent (nil pointer / interface, zero Time), not only resolver results; and subscriptions are checked event by event: every event's response must equal the reference's execution of the selection on that event's value (data, errors with full response paths, order), with resolver faults below the event",
     note="trusts gqlparser's parser/validator for what a valid operation is, the harness reference executor, and reflection-based "
          "universal resolvers; schemas are the harness probe schemas (one with renamed root types) plus random schemas drawn by the sdlgen grammar for the run seed at preparation time (interfaces implementing interfaces, unions, enums, lists and non-null nesting, field-definition directives with arguments; about a third of the object fields made resolvers), generated and compiled like the probes - a random schema that does not generate or compile is dropped and counted (C17 decides that); the binary is built with -race so that "
@@ -114,7 +114,7 @@ PROPS["C13"] = dict(
           "groups x completion orders; the payload sequence is read to the end, merged in arrival order and compared with (1) the "
           "reference executor's plain result (null propagation stopping at objects whose group delivered data:null) and (2) the same "
           "server's answer to the query with every @defer removed; plus hasNext, exactly-once (path,label), known label, "
-          "path-resolves-in-merge-so-far and termination invariants."
+          "path-resolves-in-merge-so-far and termination invariants. "
           "Half of the cases are delivered through gqlgen's multipart/mixed or SSE transport instead of draining the response function: the payloads are parsed off the wire (per part: hasNext true on all but the last, closing boundary / complete event present) and fed to the same oracle",
     note="which fields are deferred is implementation-defined and is not asserted; completion orders are steered by the harness but sampled",
     technique="metamorphic property-based testing (rapid): @defer-removal relation + reference executor + invariants over the payload history",
@@ -133,7 +133,7 @@ PROPS["C14"] = dict(
           "positions, arguments) x monotone custom cost functions a*child+b*arg+c (huge and negative constants) x limits placed at "
           "value-2..value+2 and at extremes; metamorphic check that adding selections never lowers the value; the gate is checked through "
           "the executor with the universal resolver's invocation log (over-limit => rejected and nothing invoked); the saturating add is "
-          "reached black-box over an exhaustive 13x13 boundary grid."
+          "reached black-box over an exhaustive 13x13 boundary grid. "
           "A fifth of the cases are operations whose cost is decided by variable values (custom functions multiplying an Int argument that is given through a provided or defaulted variable)",
     note="custom functions are restricted to monotone forms (the monotonicity clause is only meaningful for those); an interface that "
          "implements the interface may count as an implementor with default cost (both readings of the docs are accepted)",
@@ -178,7 +178,7 @@ PROPS["C15"] = dict(
           "malformed extension, wrong version, upper-cased hash) against a three-line model hash->text, plus rapid-generated long "
           "histories over POST and GET with an inspectable evicting cache; after every step: hash-only executes exactly the registered "
           "text (seen through the universal resolver's log) or PersistedQueryNotFound (only if the cache does not hold the hash), "
-          "mismatches execute and register nothing, and every cache entry satisfies sha256(text)=hash."
+          "mismatches execute and register nothing, and every cache entry satisfies sha256(text)=hash. "
           "The text alphabet contains two texts that differ only in the case of a letter inside a string literal, and the server may cache parsed documents in an lru.LRU beside the APQ cache (as NewDefaultServer does)",
     note="the alphabet is small by design; the cache is the harness's recording cache (gqlgen's lru is exercised by C03/C07)",
     technique="exhaustive bounded enumeration + model-based state-machine testing (rapid) against a reference model",
@@ -196,7 +196,7 @@ PROPS["C09"] = dict(
           "operationName absent/each/unknown, Accept headers (lists, q-values, junk), configured ResponseHeaders, transport order "
           "permutations and parse/validation/variable damage, over GET, POST, application/graphql and urlencoded; an independent "
           "statement of the negotiation and status rules gives the expected Content-Type, status, refusal of non-queries over GET, "
-          "the operation that may run, strict-JSON GraphQL body shape, and 'executed => 200' / 'non-2xx => nothing ran'."
+          "the operation that may run, strict-JSON GraphQL body shape, and 'executed => 200' / 'non-2xx => nothing ran'. "
           "Half of the servers cache parsed documents (lru), and a request may be repeated up to three times in a row: every answer has to satisfy the contract",
     note="application/graphql and urlencoded transports do not negotiate (configured header or application/json), as their code documents",
     technique="model-based property testing (rapid) against an explicit contract model; resolver log as execution witness",
@@ -234,7 +234,7 @@ PROPS["C03"] = dict(
           "run sequentially and from 2-8 goroutines under the race detector; half of the shards run with SetDisableSuggestion(true) in "
           "their own processes. Oracle: a rejected request produces no interceptor, directive or resolver event and errors only; an "
           "accepted one produces every hook exactly once per operation / response / root field / field (field positions from the "
-          "reference executor), in lifecycle order, first-registered outermost; resolvers as the reference says; no race report."
+          "reference executor), in lifecycle order, first-registered outermost; resolvers as the reference says; no race report. "
           "A third of the histories go through handler.Server with the POST transport instead of the executor API: each request is a JSON body that leaves out the members it does not need, and the damages include a required variable that is left out entirely or sent as null",
     note="which requests are invalid is known by construction, never by re-validating in process; interleavings are sampled",
     technique="model-based property testing (rapid) of hook histories + Go race detector",
@@ -253,7 +253,7 @@ PROPS["C07"] = dict(
           "members the predecessor had, on the same transport and text), valid and invalid bodies, over POST, GET, application/graphql, "
           "urlencoded, multipart form, SSE and multipart/mixed; resolvers echo what they see of the request, so any leak changes the "
           "body; every answer (status, Content-Type, body bytes) must equal the answer of a fresh server whose APQ cache holds exactly "
-          "the registrations the model says preceded it; the same pools are replayed from 2-8 goroutines under the race detector."
+          "the registrations the model says preceded it; the same pools are replayed from 2-8 goroutines under the race detector. "
           "A request with a wrong persisted-query hash claims the hash of another text of the pool, so that a later hash-only request for that text shows whether the rejected request left memory",
     note="whether sync.Pool hands the same object to the next request is up to the runtime; websocket sessions are covered by C11",
     technique="differential / metamorphic history testing (rapid) against a fresh-server oracle + Go race detector",
@@ -273,7 +273,7 @@ PROPS["C12"] = dict(
           "event-stream parser / mime/multipart and must contain every payload exactly once, in order, as complete 'next' events with "
           "strict JSON equal to the script, no comment inside an event, one final 'complete'; resp. parts of strict JSON, initial then "
           "incremental payloads flattened in order, hasNext true on all but the last part, closing boundary exactly once and last; the "
-          "Go race detector watches the keep-alive / aggregator goroutines; after a disconnect no transport goroutine may remain parked."
+          "Go race detector watches the keep-alive / aggregator goroutines; after a disconnect no transport goroutine may remain parked. "
           "Payload data, labels and error messages are generated from hostile chunks (format verbs, line ends, 'data:' / 'event:' keywords, boundaries, quotes, control characters)",
     note="timings are sampled; the race detector reports unsynchronised writers on any executed path",
     technique="property-based testing (rapid) with independent stream parsers as oracle + Go race detector",
@@ -296,7 +296,7 @@ PROPS["C11"] = dict(
           "function accepted, per id next* then error and/or complete with at most one complete, nothing after it and no result after an "
           "error, the n-th result equals event n of the reference executor; after the connection ends: CloseFunc ran exactly once, no "
           "transport goroutine remains parked (goroutine-dump witness), event sources saw their context cancelled; race detector silent, "
-          "a crash (gorilla's concurrent-write panic) is a violation."
+          "a crash (gorilla's concurrent-write panic) is a violation. "
           "Subscriptions may be endless (their source stays open until its context is cancelled: only a stop or the end of the session ends them), a stop may follow its start with no pause, and a dedicated generator ends sessions from both sides at (nearly) the same instant with swept offsets",
     note="ids are never reused within a session (concurrent duplicate ids are a client protocol violation whose handling is undocumented); "
          "'receives its results' is checked at session end only, with a witness, otherwise inconclusive",
@@ -318,7 +318,7 @@ PROPS["C16"] = dict(
           "with the ast.Schema gqlparser loaded from the SDL (kinds, names, order, descriptions, type references, default values "
           "re-parsed as GraphQL constants, each element's own deprecation, interfaces of objects and interfaces, possible object "
           "types, directive locations/arguments/repeatability); with introspection disabled six query shapes hiding __schema/__type "
-          "behind aliases, fragments and variables must yield null plus an error and no schema type name in the data."
+          "behind aliases, fragments and variables must yield null plus an error and no schema type name in the data. "
           "With introspection disabled every hidden field must be null with an error of its own, including __type lookups of names that do not exist; and on the federation probes the _service field is checked over histories of requests with introspection enabled and disabled (aliases, fragments, variables)",
     note="gqlparser's schema loader is the reference for what the SDL means; the federation _service field is covered by C20",
     technique="round-trip property testing (rapid) with schema generation from a grammar",
@@ -336,7 +336,7 @@ PROPS["C17"] = dict(
           "normalise to the same identifier; 1-3 files with extensions; executable and type-system directive locations) and option "
           "vectors over every documented boolean option, both exec layouts, three resolver layouts, worker_limit and random per-field "
           "resolver: true; each case runs gqlgen's generator from /repo's working tree in its own process, then go build and go vet of "
-          "executor, models, resolver stubs and stub file; a non-zero exit, a panic, or a compile/vet error is a violation."
+          "executor, models, resolver stubs and stub file; a non-zero exit, a panic, or a compile/vet error is a violation. "
           "A third of the cases add an object bound to a user-written Go struct (directly or through autobind) whose fields several schema fields share through fieldName aliases and names that differ only in case",
     note="96 (quick) / 800 (thorough) points in an enormous space, weighted towards the listed naming patterns; shrinking re-generates",
     technique="property-based testing (rapid) with grammar-based schema generation; oracle = generator exit status + Go type checker",
@@ -373,7 +373,7 @@ PROPS["C19"] = dict(
           "and remove types; after every regeneration the files are read back with go/parser and go/scanner: surviving resolvers keep "
           "body token stream, doc text, result names and every import their body uses; bodies of removed/renamed resolvers and all "
           "helper declarations are still present in that run's output; every file parses; and when only fields were added to files "
-          "holding only resolver methods, a package that compiled before compiles after."
+          "holding only resolver methods, a package that compiled before compiles after. "
           "A third of the schemas also have Mutation and Subscription roots (channel-valued resolvers), and resolver.omit_template_comment is drawn",
     note="bodies are never empty (gqlgen documents an empty body as 'not implemented'); doc comments are plain // comments",
     technique="model-based state-machine property testing (rapid) with a token-stream round-trip oracle",
@@ -393,7 +393,7 @@ PROPS["C20"] = dict(
           "null / wrongly typed keys, a @requires field) with per-key outcomes {entity, error, panic, nil} and delays that reorder "
           "completion; entity resolvers stamp each entity with the key they were called with, so the model can say, per index, which "
           "entity (or null) must stand there, that a failing representation is reported, that no failure changes another element, and "
-          "that the @requires field comes from the same representation; run under the race detector; an unrecovered panic is a violation."
+          "that the @requires field comes from the same representation; run under the race detector; an unrecovered panic is a violation. "
           "One entity has a composite first key and a second key; a generic generator makes every key field independently present, null or absent; vector x1 generates with federation explicit_requires and a harness-written populator",
     note="the entity_resolver_multi package option named in the property text does not exist at the pinned commit; batch resolvers come "
          "from the @entityResolver(multi: true) directive; explicit_requires is covered by vector x1 (the harness writes the user's populator, which copies the @requires field "
